@@ -47,6 +47,11 @@ def pattern_predicate_table(m, func, body_or_expr, npos, cx, is_body):
         w = bits[npos:]
 
         def atom(n):
+            n1 = strip(n, casts=True)
+            if n1["kind"] == "DeclRefExpr" and n1.get("ref", {}).get("kind") == "VarDecl":
+                d_ = cx.single_def(n1["ref"]["id"])
+                if d_ is not None:
+                    return ev.expr(d_)          # a named boolean temporary stands for its definition
             kind, idx, val, neg = classify(n)
             if kind == "e":
                 pairing.setdefault(("e", idx), val)
